@@ -131,13 +131,32 @@ theorem intTok_ne_overflow (i : Int) : intToStr i ++ ".0".toList ≠ overflowTok
   rw [h] at h2
   exact absurd h2 (by decide)
 
+/-- representable text has no NUL character, so numpy's fixed-width array keeps it whole -/
+theorem rstripNul_textOK (s : Str) (h : textOK s = true) : rstripNul s = s := by
+  simp only [textOK, strRepresentable, Bool.and_eq_true, List.all_eq_true] at h
+  have hch := h.1.2
+  unfold rstripNul
+  rw [dropWhile_eq_self]
+  · simp
+  · intro c hc
+    have hm : c ∈ s := by
+      have : c ∈ s.reverse := by
+        cases hr : s.reverse with
+        | nil => simp [hr] at hc
+        | cons y ys => simp [hr] at hc; subst hc; simp
+      simpa using this
+    have := hch c hm
+    simp only [decide_eq_false_iff_not]
+    intro e; subst e
+    exact absurd this (by decide)
+
 theorem read_text (naRep : Str) (v : Val) (h : valOK uText v = true) :
-    (readCell naRep v).pyStr = textOf v := by
+    textCell (readCell naRep v) = textOf v := by
   obtain ⟨h12, h13, h23⟩ := units_distinct
   cases v with
   | text s =>
     simp only [valOK, Bool.and_eq_true] at h
-    simp [readCell, writtenCell, storeCell_textOK s h.2, Cell.pyStr, textOf]
+    simp [readCell, writtenCell, storeCell_textOK s h.2, Cell.pyStr, textOf, textCell, rstripNul_textOK s h.2]
   | bool b => simp [valOK, h12] at h
   | dt t => simp [valOK, h13] at h
   | num t => simp [valOK, numericUnit] at h
@@ -291,10 +310,10 @@ theorem colVals_length (c : Column) : (colVals c).length = c.values.length := by
     · simp [ColVals.length]
     · split <;> simp [ColVals.length]
 
-theorem parseWith_all {α : Type} (cellFn : Cell → Option α) (rep : FixCfg → α) (vt : String)
+theorem parseWith_all {α : Type} (cellFn : Cell → Option α) (rep : FixCfg → α) (vt : String) (txt : Cell → Str)
     (rc : Val → Cell) (g : Val → α) (vals : List Val) (f : Fixer)
     (h : ∀ v ∈ vals, cellFn (rc v) = some (g v)) :
-    parseWith cellFn rep vt (vals.map rc) f = (vals.map g, f) := by
+    parseWith cellFn rep vt txt (vals.map rc) f = (vals.map g, f) := by
   induction vals with
   | nil => rfl
   | cons v vs ih =>
@@ -319,7 +338,7 @@ theorem parseColumn_wf (ext : Ext) (naRep : Str) (hna : naRepOK naRep = true) (c
   unfold parseColumn colVals cellsOf
   by_cases h1 : c.unit = uText
   · simp only [h1, if_true]
-    have : (c.values.map (readCell naRep)).map Cell.pyStr = c.values.map textOf := by
+    have : (c.values.map (readCell naRep)).map textCell = c.values.map textOf := by
       rw [List.map_map]
       apply List.map_congr_left
       intro v hv
@@ -328,7 +347,7 @@ theorem parseColumn_wf (ext : Ext) (naRep : Str) (hna : naRepOK naRep = true) (c
   · simp only [h1, if_false]
     by_cases h2 : c.unit = uOnoff
     · simp only [h2, if_true, parseOnoff]
-      rw [parseWith_all onoffCell _ "onoff" (readCell naRep) boolOf c.values f
+      rw [parseWith_all onoffCell _ "onoff" onoffTxt (readCell naRep) boolOf c.values f
         (fun v hv => read_onoff naRep v (h2 ▸ h v hv))]
     · simp only [h2, if_false]
       by_cases h3 : c.unit = uDatetime
@@ -338,7 +357,7 @@ theorem parseColumn_wf (ext : Ext) (naRep : Str) (hna : naRepOK naRep = true) (c
         rfl
       · simp only [h3, if_false, parseFloat]
         have hu : numericUnit c.unit = true := (numericUnit_iff _).2 ⟨h1, h2, h3⟩
-        rw [parseWith_all (floatCell ext) _ "float" (readCell naRep) numOf c.values f
+        rw [parseWith_all (floatCell ext) _ "float" floatTxt (readCell naRep) numOf c.values f
           (fun v hv => read_numeric ext naRep hna c.unit v hu (h v hv))]
 
 theorem parseColumns_wf (ext : Ext) (naRep : Str) (hna : naRepOK naRep = true) (cols : List Column) (f : Fixer)
